@@ -22,29 +22,39 @@ def tasks_for(pid, tier, seed):
         kern("index_extraction", False, what="same with debug assertions off (unreachable_unchecked paths)")
         kern("trimmed_index", True, what="TrimmedIndex::new_* is Some exactly below 2^24")
         kern("slot_index_encoding", True, what="free-bit encoding of slot indices: free/live never confused, end marker is no valid index")
-        if T:
-            kern("slot_index_encoding", False)
-            kern("conversions", False, what="from_any_unchecked keeps the payload (nodbg)")
+        kern("slot_index_encoding", False)
+        kern("conversions", False, what="from_any_unchecked keeps the payload (nodbg)")
+    if pid == "C01":
+        kern("slot_index_encoding", True, what="free-list links and data indices round-trip for every index below 2^24 (a mis-decoded link hands a live position out again)")
+        kern("version_next", True, what="next() = g+1 below u32::MAX, panics exactly at u32::MAX (default features)")
+        kern("trimmed_index", True)
+    if pid == "C09":
+        kern("conversions", True, what="typed/dynamic direct conversions keep (index, version) and check the archetype id")
+        kern("conversions", False, what="same with debug assertions off: the checking conversions still check")
+    if pid == "C10":
+        kern("growth", True, what="the capacity-overflow refusal happens before any store through self")
+        kern("admission", True, what="push panics only at the limit, before force_create touches anything")
     if pid == "C08":
+        kern("slot_index_encoding", True, what="index_free(new_free(i)) == Some(i) for every i < 2^24: a mis-decoded free-list link re-issues a live position")
+        kern("version_next", False)
         kern("version_next", True, what="next() = g+1 below u32::MAX, panics exactly at u32::MAX")
         kern("packing", True, what="EntityAny::new is injective in (index, id, generation); low byte = id")
         if T:
-            kern("version_next", False)
             kern("version_next", True, ("wrapping_version",), what="wrapping_version: wraps to 1, never 0")
     if pid == "C12":
         kern("growth", True, what="grow(): capacity < 2^24 => strictly larger, <= 2^24; >= 2^24 => false before any store")
         kern("admission", True, what="push panics exactly when len == capacity == 2^24 (grow's contract assumed, discharged by the growth kernel of the same run), calls grow only on a full storage, creates only with room; push_within_capacity creates iff len < capacity and returns Err otherwise")
         kern("constants", True, what="MAX_DATA_CAPACITY == 2^24")
         kern("trimmed_index", True)
-        if T:
-            kern("growth", False)
-            kern("admission", False)
+        kern("slot_index_encoding", True, what="free-list links round-trip for every index below 2^24")
+        kern("growth", False)
+        kern("admission", False)
     if pid == "C14":
         kern("conversions", True, what="TryFrom/from_any/from_any_unchecked/from_raw/raw/archetype_id for a symbolic ARCHETYPE_ID")
         kern("hashing", True, what="Hash feeds one u64 that is injective in (key, generation)")
         kern("packing", True)
+        kern("conversions", False, what="same with debug assertions off: from_any / TryFrom still check the archetype id (only from_any_unchecked may skip it)")
         if T:
-            kern("conversions", False)
             kern("index_extraction", True)
     if pid == "C19":
         kern("version_next", True, ("wrapping_version",), what="wrapping_version replaces the panic by wraparound to 1")
